@@ -30,9 +30,10 @@ CLAIMED = {
             "the bound; dtw.warping_paths is compared with the as-written model on every cell, the C full matrix, "
             "compact+expand and slice expansion cell-wise with the specification model applying the property's "
             "two freedoms",
-            "the VALUES the C fill kernels store are tied by correspondence (incl. a direct judge of the compact array "
-            "through the layout); that fill and expand address the same slot is proved (CFill.v, CExpand.v); border-cell "
-            "finding F23 recorded",
+            "a model of the C fill loops as written (regenerated geometry and recurrence text, CFillSim.v) is proved to "
+            "store the specification matrix through the layout, and fill and expand address the same slot (CFill.v, "
+            "CExpand.v); pruning inside the C fill loop and float rounding are correspondence only; border-cell finding "
+            "F23 recorded",
             "Coq proof (cell-wise optimality + refinement of the as-written Python routine) + regenerated band + "
             "correspondence"),
     "C03": ("Coq theorems: any pruning that skips only cells whose optimum exceeds the bound computes all cells "
@@ -68,8 +69,8 @@ CLAIMED = {
             "loops of the five C routines address the compact array through its layout (CTrace.v over regenerated "
             "offsets/moves), and the C loop simulates the abstract traceback when the compact array holds the matrix "
             "through the layout (CTraceSim.v; that content is judged cell by cell under C04)",
-            "the content of the compact array (C04 correspondence) and dtw_wps_loc (start slot of customstart) are "
-            "inputs of the C traceback theorem; isclose/prob decisions not modelled; F28b recorded",
+            "the C traceback theorem is closed end to end over the fill model of C04 (C05_c_fill_then_trace: no pruning "
+            "inside the fill loop, exact arithmetic); isclose/prob decisions not modelled; F28b and F40 recorded",
             "Coq proof (traceback cost, end relaxation, layout refinement of the C loops) + regenerated C tables + "
             "correspondence + independent path checker"),
     "C06": ("Coq theorems over the functions REGENERATED from dtw.py (_distance_matrix_length, _complete_block, "
